@@ -195,6 +195,8 @@ def legal_literals(schema, t, depth=0):
             base.append((f.name, vals[0]))
         if ok:
             out.append(ObjV(tuple(base)))
+            if len(base) > 1:
+                out.append(ObjV(tuple(reversed(base))))   # fields written in another order than they are declared
             for f in td.fields:
                 if f not in required and f.type[0] != "nn":
                     out.append(ObjV(tuple(base) + ((f.name, NullV()),)))
